@@ -261,6 +261,9 @@ func (c *simConn) Read(p []byte) (int, error) {
 					armed = "armed"
 				}
 				c.log.add("ev stall %d %s %s", c.id, pos, armed)
+			} else if pos == "boundary" && !c.atStall && c.readArmed && !c.expired {
+				// nothing is in transfer, yet a read deadline is set: the idle connection would be given up for no reason
+				c.log.add("ev stall %d idle armed", c.id)
 			}
 			c.atStall = true
 			c.cond.Wait()
